@@ -120,7 +120,7 @@ pub fn judge(prop: &str, idx: usize, prog: &Program, items: &[Item], src: &str, 
         let mine = match class {
             "ANY" => true,
             "PANIC" => true,
-            c => c == prop,
+            c => c == prop || (prop == "C09" && (c == "C01" || c == "C02")),
         };
         if mine {
             t.violate(Violation {
@@ -725,9 +725,12 @@ fn explore_attrs(idx: usize, e: &Entry, first: Option<usize>, thorough: bool, t:
                     blocks.last_mut().unwrap().push(tx.clone());
                 }
                 let nb = blocks.len();
-                let assignments = names.len().pow(nb as u32);
+                // every assignment of declared names to blocks; for four blocks only the
+                // rotations (the full product is covered for up to three blocks)
+                let full_product = names.len().pow(nb as u32);
+                let assignments = if nb >= 4 { names.len() } else { full_product };
                 for asg in 0..assignments {
-                    let mut x = asg;
+                    let mut x = if nb >= 4 { (0..nb).fold(0usize, |acc, b| acc + ((b + asg) % names.len()) * names.len().pow(b as u32)) } else { asg };
                     let attrs: Vec<String> = blocks
                         .iter()
                         .map(|b| {
@@ -997,7 +1000,7 @@ pub fn main(entries: Vec<Entry>) {
                 return t;
             }
             if matches!(e.prog.decls[e.prog.root], Decl::Enum(_)) {
-                explore_enum(&prop, *i, e, if thorough { 3 } else { 2 }, &mut t);
+                explore_enum(&prop, *i, e, if thorough && e.prog.en(e.prog.root).variants.len() <= 2 { 3 } else { 2 }, &mut t);
                 t.hit("programs");
                 return t;
             }
